@@ -87,3 +87,67 @@ def build(eng, tier):
         t.cover = [(W, {"drive_init": "_init_wrapper", "drive_setter": "_setter_wrapper", "drive_method": "_method_wrapper",
                         "drive_container": "_container_method_wrapper"}[fn.name])]
         eng.add_target(t)
+
+
+_build20 = build
+
+
+def build(eng, tier):
+    _build20(eng, tier)
+    add_observer_purity_obligations(eng)
+
+
+def add_observer_purity_obligations(eng):
+    """`Running any sequence of IR operations inside a journal leaves the same state, return values and exceptions as outside`:
+    the wrappers compute a details string BEFORE calling the original method, from the very arguments the method is about to
+    receive.  That observation must be effect-free on the arguments: a details function may format them (repr/str/len,
+    f-strings, attribute reads) but may not iterate them (a one-shot iterator handed to a bulk mutator would arrive empty).
+    Decided on the source of journaling/_wrappers.py: one obligation per `details_func=` site; helper functions a details
+    function calls are held to the same rule."""
+    import ast as _ast
+    from pyvc import extract
+    path = extract.module_path("onnx_ir.journaling._wrappers")
+    tree = _ast.parse(open(path).read())
+    BK = "observer purity (syntactic effect analysis, onnx_ir.journaling._wrappers)"
+    funcs = {n.name: n for n in _ast.walk(tree) if isinstance(n, _ast.FunctionDef)}
+    PURE = {"repr", "str", "len", "type", "isinstance", "id", "bool", "int"}
+
+    def impure(node, seen=()):
+        """first construct that may consume an argument, or None"""
+        for n in _ast.walk(node):
+            if isinstance(n, (_ast.For, _ast.While, _ast.ListComp, _ast.SetComp, _ast.DictComp, _ast.GeneratorExp, _ast.Starred, _ast.Yield, _ast.YieldFrom)):
+                return f"{type(n).__name__} at line {n.lineno}"
+            if isinstance(n, _ast.Call):
+                f = n.func
+                if isinstance(f, _ast.Name) and f.id in PURE:
+                    continue
+                if isinstance(f, _ast.Attribute) and f.attr == "format" and isinstance(f.value, _ast.Constant) and isinstance(f.value.value, str):
+                    continue        # "...".format(args): formats (repr/str of) its arguments
+                if isinstance(f, _ast.Name) and f.id in funcs and f.id not in seen:
+                    r = impure(funcs[f.id], seen + (f.id,))
+                    if r:
+                        return f"{f.id}(): {r}"
+                    continue
+                return f"call of {_ast.unparse(f)} at line {n.lineno}"
+        return None
+    k = 0
+    for c in _ast.walk(tree):
+        if not isinstance(c, _ast.Call):
+            continue
+        for kw in c.keywords:
+            if kw.arg != "details_func":
+                continue
+            k += 1
+            v = kw.value
+            if isinstance(v, _ast.Name) and v.id in PURE:
+                why = None
+            elif isinstance(v, _ast.Lambda):
+                why = impure(v.body)
+            elif isinstance(v, _ast.Name) and v.id in funcs:
+                why = impure(funcs[v.id], (v.id,))
+            else:
+                why = f"not a lambda / known function: {_ast.unparse(v)[:40]}"
+            eng.add_static(f"observer-purity/details@L{kw.value.lineno}", why is None,
+                           f"details function at line {kw.value.lineno}: " + ("formats its arguments only" if why is None else f"may consume an argument ({why})"),
+                           backend=BK)
+    eng.add_static("observer-purity/sites", k >= 20, f"{k} details functions found", backend=BK)
